@@ -29,7 +29,7 @@ def build():
     return _built["bin"]
 
 
-def run(args, stdin, timeout=20, failing_stdin=False, full_stdout=False):
+def run(args, stdin, timeout=20, failing_stdin=False, full_stdout=False, chunks=None):
     b = build()
     if b is None:
         return {"error": "build failed: " + _built.get("err", "")}
@@ -42,6 +42,25 @@ def run(args, stdin, timeout=20, failing_stdin=False, full_stdout=False):
                 p = subprocess.run([b] + list(args), stdin=fd, capture_output=True, timeout=timeout)
             finally:
                 os.close(fd)
+        elif chunks:
+            # the input delivered in several pieces, a pause between them (C17: the output must not depend on the delivery)
+            import time
+            pr = subprocess.Popen([b] + list(args), stdin=subprocess.PIPE, stdout=subprocess.PIPE, stderr=subprocess.PIPE)
+            try:
+                for ck in chunks:
+                    pr.stdin.write(ck.encode("utf-8", "surrogateescape") if isinstance(ck, str) else bytes(ck))
+                    pr.stdin.flush()
+                    time.sleep(0.4)
+            except OSError:
+                pass
+            try:
+                pr.stdin.close()
+            except OSError:
+                pass
+            pr.stdin = None
+            out, err = pr.communicate(timeout=timeout)
+            class _P: pass
+            p = _P(); p.stdout, p.stderr, p.returncode = out, err, pr.returncode
         elif full_stdout:
             # a standard output on which every write FAILS (/dev/full: ENOSPC): the run must report it (C16)
             with open("/dev/full", "wb") as full:
@@ -144,7 +163,7 @@ def run_probe(probe):
         obs = run_endless(probe.get("args", []), probe["endless"], any("{FIFO}" in a for a in probe.get("args", [])))
     else:
         stdin = bytes.fromhex(probe["stdin_hex"]) if "stdin_hex" in probe else probe.get("stdin", "")
-        obs = run(probe.get("args", []), stdin, failing_stdin=bool(probe.get("failing_stdin")), full_stdout=bool(probe.get("full_stdout")))
+        obs = run(probe.get("args", []), stdin, failing_stdin=bool(probe.get("failing_stdin")), full_stdout=bool(probe.get("full_stdout")), chunks=probe.get("chunks"))
     if "error" in obs:
         return None, obs
     ok = True
